@@ -2,10 +2,10 @@
 From Mage Require Import Base.Strs Model.Dispatch.
 
 (* c_conv: the Go standard library's answers (harness/unitrun op "conv") for the words of the case;
-   c_fail: the declarations whose body was told to fail; c_ignore: MAGEFILE_IGNOREDEFAULT ("" = unset);
+   c_fail: the declarations whose body was told to fail; c_ignore: MAGEFILE_IGNOREDEFAULT ("" = unset); c_mode: how the program was started;
    c_obs: the CALL trace and the classified end of the run (None = not classifiable) *)
 Record case := { c_info : info; c_conv : list (argty * string * option string); c_fail : list nat;
-                 c_ignore : string; c_words : list string; c_obs : list callrec * option exit }.
+                 c_ignore : string; c_mode : mode; c_words : list string; c_obs : list callrec * option exit }.
 
 Definition argty_eqb (a b : argty) : bool :=
   match a, b with TString, TString | TInt, TInt | TBool, TBool | TDur, TDur => true | _, _ => false end.
@@ -19,7 +19,7 @@ Fixpoint conv_of (l : list (argty * string * option string)) (ty : argty) (w : s
 Definition fails_of (l : list nat) (d : nat) (_ : list value) : bool := existsb (Nat.eqb d) l.
 
 Definition model_obs (c : case) : list callrec * exit :=
-  dispatch (conv_of (c_conv c)) (fails_of (c_fail c)) (c_info c) (c_ignore c) (c_words c).
+  fst (main (conv_of (c_conv c)) (fails_of (c_fail c)) (c_mode c) (c_info c) (c_ignore c) (c_words c)).
 
 Definition value_eqb (a b : value) : bool :=
   match a, b with
